@@ -75,7 +75,7 @@ def drawsFrom : (k : Nat) → List Nat → Option (List Nat × List Nat)
 structure RRead where
   data : Bytes
   err : Bool
-  deriving Repr
+  deriving Repr, DecidableEq
 
 abbrev Source := List RRead
 
